@@ -69,7 +69,15 @@ Pool ==
      Q("{ o { ...G ...G } n { y } } fragment G on O { x }", "", "AD", "-"),                     \* 39
      \* fields resolved by their source value (graphql.FieldResolver), literal arguments
      Q("{ srl { r(y: 2) } }", "", "AE", "-"),                                                   \* 40
-     Q("{ srl { r(e: RED) p } sr { r(e: RED) } }", "", "AF", "-")                               \* 41
+     Q("{ srl { r(e: RED) p } sr { r(e: RED) } }", "", "AF", "-"),                              \* 41
+     \* the same documents under another layout (same ideal class, other text) and requests that fail, so that the
+     \* locations of their errors are observable
+     Q("\n\n   { f(x: 1) }", "", "A", "-"),                                                     \* 42 = 1 padded
+     Q("   { zz }\n", "", "M", "-"),                                                            \* 43 = 16 padded
+     Q("{ f(x: 1) zz }", "", "AG", "-"),                                                        \* 44 invalid after a literal
+     Q("{ f(x: 1000) zz }", "", "AG", "-"),                                                     \* 45 ... of another length
+     Q("{ f(x: 1) o { qq } }", "", "AH", "-"),                                                  \* 46
+     Q("{\n  f(x: 22)\n  o { qq }\n}", "", "AH", "-")                                           \* 47
   >>
 
 Schemas == {"s1", "s2"}
@@ -93,16 +101,18 @@ Run(h, i, st, mode) ==
   IF i > Len(h) THEN <<>>
   ELSE
     LET op == h[i] IN
-    IF op.o = "reset" THEN <<[out |-> "reset", len |-> 0]>> \o Run(h, i + 1, <<>>, mode)
+    IF op.o = "reset" THEN <<[out |-> "reset", len |-> 0, by |-> 0]>> \o Run(h, i + 1, <<>>, mode)
     ELSE
       LET k == IF mode = "exact" THEN <<Pool[op.q].op, Pool[op.q].text>> ELSE <<Pool[op.q].op, Pool[op.q].cls>>
           ix == { j \in 1..Len(st) : st[j].k = k }
           out == IF ix = {} THEN "miss"
                  ELSE IF st[CHOOSE j \in ix : TRUE].s # op.s THEN "stale" ELSE "hit"
           rest == SelectSeq(st, LAMBDA e : e.k # k)
-          st1 == <<[k |-> k, s |-> op.s]>> \o rest
+          \* an entry remembers the request whose text it was planned from (`by`): a hit serves THAT plan
+          by == IF out = "hit" THEN st[CHOOSE j \in ix : TRUE].by ELSE op.q
+          st1 == <<[k |-> k, s |-> op.s, by |-> by]>> \o rest
           st2 == IF Len(st1) > MaxE THEN SubSeq(st1, 1, MaxE) ELSE st1
-      IN <<[out |-> out, len |-> Len(st2)]>> \o Run(h, i + 1, st2, mode)
+      IN <<[out |-> out, len |-> Len(st2), by |-> by]>> \o Run(h, i + 1, st2, mode)
 
 ExactKey(q) == <<Pool[q].op, Pool[q].text>>
 ClassKey(q) == <<Pool[q].op, Pool[q].cls>>
@@ -115,6 +125,13 @@ MayHit(h, i) ==
      /\ h[j].o = "get" /\ ClassKey(h[j].q) = ClassKey(h[i].q) /\ h[j].s = h[i].s
      /\ \A m \in (j+1)..(i-1) : h[m].o # "reset"
 
+\* LOCATIONS.  Transparency includes the locations of the errors of a response: they point into the text of THIS
+\* request.  With the exact key a hit is a request with the same text, so nothing can differ.  With the class key
+\* the served plan (or the cached validation errors) was built from the text of request `by`, which may differ in
+\* layout and in the length of its literals:
+\*   intended                                  locations of step i = those of the from-scratch run of text(i)
+\*   D_C06_normalized_locations_of_first_text   ... = those of the from-scratch run of text(by)   (as-is design)
+\* The harness checks the first and credits the second only to the entry's real creator (read from the hook events).
 Vector ==
   LET x == Run(hist, 1, <<>>, "exact")
       c == Run(hist, 1, <<>>, "class")
